@@ -253,7 +253,7 @@ def config_enforced(a1: int, fpi: int) -> bool:
 
 META = {
     "files": ["src/nauyaca/server/middleware.py", "src/nauyaca/server/handler.py", "src/nauyaca/server/config.py",
-              "src/nauyaca/server/protocol.py"],
+              "src/nauyaca/server/protocol.py", "src/nauyaca/security/pyopenssl_tls.py", "src/nauyaca/security/certificates.py"],
     "level": "model_checking",
     "explanation": ("Bounded symbolic execution of the real CertificateAuth middleware chained with the real StaticFileHandler on a "
                     "model capsule: rule prefixes, require_cert flags, allow-lists (absent / empty / {A} / {B}), the spelling of the "
@@ -355,23 +355,23 @@ OBLIGATIONS = [
        functions=["get_peer_certificate_from_connection", "x509_to_cryptography", "get_certificate_fingerprint",
                   "CertificateAuth.process_request"], stubs=["connection object returning a real OpenSSL.crypto.X509"],
        note="discrete: the certificates are concrete (X.509 parsing is C code), the engine forks on the sequence"),
-    Ob("spelling2", spelling2, quick=800, thorough=2400,
+    Ob("spelling2", spelling2, quick=1000, thorough=3000,
        symbolic="a never-admitting rule on one of 5 prefixes; 2 path segments (10 quick / 14 thorough names incl. '.', '..', empty, "
                 "pct-encoded), trailing slash, query", functions=FN, stubs=["ModelFS"]),
-    Ob("spelling3_a", spelling3_a, quick=600, thorough=2400,
+    Ob("spelling3_a", spelling3_a, quick=1000, thorough=3000,
        symbolic="never-admitting rule on 4 prefixes; 3 path segments, first in {sec, pub, s}", functions=FN, stubs=["ModelFS"]),
-    Ob("spelling3_b", spelling3_b, quick=600, thorough=2400,
+    Ob("spelling3_b", spelling3_b, quick=1000, thorough=3000,
        symbolic="never-admitting rule on 4 prefixes; 3 path segments, first in {p, q, '..'}", functions=FN, stubs=["ModelFS"]),
-    Ob("spelling3_c", spelling3_c, quick=600, thorough=2400,
+    Ob("spelling3_c", spelling3_c, quick=1000, thorough=3000,
        symbolic="never-admitting rule on 4 prefixes; 3 path segments, first in {'', %2e%2e, '.', %73ec, ...}", functions=FN, stubs=["ModelFS"]),
-    Ob("admit", admit, quick=800, thorough=2400,
+    Ob("admit", admit, quick=1000, thorough=3000,
        symbolic="rule prefix (5), require_cert, allow-list (absent / empty / {A} / {B}), presented fingerprint (none / A / B), "
                 "8 canonical targets (files, directories with/without slash, root, prefix-sharing file), trailing slash",
        functions=FN, stubs=["ModelFS"]),
-    Ob("nested_a", nested_a, quick=800, thorough=2400,
+    Ob("nested_a", nested_a, quick=1000, thorough=3000,
        symbolic="2 rules (first prefix /sec or /sec/) with distinct prefixes (nested / overlapping), incl. a catch-all '/' after a stricter rule; admission switches of both, 6 canonical targets incl. directories requested without trailing slash, fingerprint",
        functions=FN, stubs=["ModelFS"]),
-    Ob("nested_b", nested_b, quick=800, thorough=2400,
+    Ob("nested_b", nested_b, quick=1000, thorough=3000,
        symbolic="2 rules (first prefix /sec/pub/ or /pub/) with distinct prefixes (nested / overlapping), incl. a catch-all '/' after a stricter rule; admission switches of both, 6 canonical targets incl. directories requested without trailing slash, fingerprint",
        functions=FN, stubs=["ModelFS"]),
     Ob("config", config, quick=300, thorough=900,
